@@ -43,6 +43,10 @@ class Injected(RuntimeError):
     pass
 
 
+class InjectedIO(OSError):
+    """an I/O error, the most natural fault of a frame writer (disk full, file system gone)"""
+
+
 class FailAt:
     def __init__(self, point, stage, step, exc_kind, nth=0):
         self.point, self.stage, self.step, self.exc_kind, self.nth = point, stage, step, exc_kind, nth
@@ -58,7 +62,7 @@ class FailAt:
         self.fired = True
         if self.exc_kind == "kbd":
             raise KeyboardInterrupt()
-        self.exc = Injected(f"injected at {point} {stage} step {step}")
+        self.exc = (InjectedIO if self.exc_kind == "oserr" else Injected)(f"injected at {point} {stage} step {step}")
         raise self.exc
 
     def inside_spsq(self, stage=None, step=None, n=None):
@@ -125,6 +129,8 @@ def gen_cases(tier, seed):
     combos.append(dict(k=4, therm=False, out="file", pre=["out-1.h5", "out-2.h5.tmp"], pause="off"))
     combos.append(dict(k=2, therm=False, out="file", pre=[], pause="no"))
     combos.append(dict(k=2, therm=True, out="file", pre=[], pause="no"))
+    combos.append(dict(k=2, therm=False, out="temp", pre=[], pause="enter"))
+    combos.append(dict(k=4, therm=False, out="file", pre=[], pause=["No", "other"][seed % 2]))
     combos.append(dict(k=4, therm=False, out="file", pre=[], pause="yes"))
     combos.append(dict(k=1, therm=False, out="temp", pre=[], pause="yes"))
     # screening: update() iterates; faults can arrive between its iterations
@@ -220,7 +226,8 @@ def one_run(spec, device, fault, answer=None, line_fault=None):
 
     def fake_input(prompt=""):
         answers.append(prompt)
-        return {"no": "n", "yes": "y"}.get(combo["pause"], "n")
+        # the prompt is "[yN]": anything that does not begin with y declines, the bare Enter key included
+        return {"no": "n", "yes": "y", "enter": "", "No": "No", "other": "q"}.get(combo["pause"], "n")
 
     cwd = os.getcwd()
     os.chdir(outdir)
@@ -577,6 +584,13 @@ def run_case(spec):
                         points += [("update_middle", 1), ("induced_exit", 0), ("induced_exit", 1)]
                     if stage == "Simulating":
                         points += [("save_entry", 0), ("save_exit", 0)] + [("save_middle", n) for n in (0, 2, 4, 5, 6)]
+                    if exc_kind == "err" and stage == "Simulating":
+                        # the frame writer failing with an I/O error: an error like any other (the run stops, the error reaches the caller)
+                        for point, nth in (("save_entry", 0), ("save_middle", 2), ("save_exit", 0)):
+                            f = FailAt(point, stage, step, "oserr", nth)
+                            merge(*one_run(spec, dev, f))
+                            if f.fired:
+                                classes.add(f"{point}/oserr")
                     for point, nth in points:
                         f = FailAt(point, stage, step, exc_kind, nth)
                         merge(*one_run(spec, dev, f))
